@@ -65,10 +65,9 @@ VARIANTS = {
     'C05': [('C05', 1.0)],
     'C06': [('C06', 0.7), ('C06:fault', 0.3)],
     'C08': [('C08:source', 0.65), ('C08:aperstats', 0.35)],
-    'C09': [('C09:background', 0.2), ('C09:profile', 0.12),
-            ('C09:aperture', 0.18), ('C09:psfphot', 0.2),
-            ('C09:finder', 0.1), ('C09:ellipse', 0.1),
-            ('C09:gridded', 0.1)],
+    'C09': [('C09:background', 0.2), ('C09:profile', 0.14),
+            ('C09:aperture', 0.16), ('C09:psfphot', 0.25),
+            ('C09:finder', 0.1), ('C09:ellipse', 0.15)],
     'C10': [('C10', 0.85), ('C10:fault', 0.15)],
     'C13': [('C13:image', 0.5), ('C13:gridded', 0.5)],
     'C19': [('C19:radial', 0.5), ('C19:cog', 0.5)],
@@ -238,13 +237,16 @@ def replay_fresh(path):
 
 
 def run_property(pid, tier, base_seed, workers=16, budget_override=None,
-                 max_runs=10 ** 9, out_dir=None):
+                 max_runs=10 ** 9, out_dir=None, only=None):
     t0 = time.time()
     known_all, fixed = load_known()
     known = [k for k in known_all if k.get('property') == pid]
     agg = Agg()
     budget = budget_override or BUDGET[pid][tier]
-    for key, share in VARIANTS[pid]:
+    variants = VARIANTS[pid]
+    if only:
+        variants = [(k, 1.0) for k, _ in variants if k in only]
+    for key, share in variants:
         n = run_variant(key, base_seed, budget * share, max_runs, workers,
                         agg, known,
                         shrink_budget=(200 if tier == 'quick' else 300))
